@@ -287,15 +287,111 @@ pub fn gen_docs(kind: &str, opts: &Opts, rng: &mut Rng) -> Vec<Vec<Child>> {
     docs
 }
 
+fn parse_token(t: &str) -> Option<Child> {
+    Some(match t {
+        "ok" => Child::Ok,
+        "okse" => Child::OkStartEnd,
+        "data" => Child::Data("<configuration><a>1</a></configuration>"),
+        "cmt" => Child::Comment,
+        "junk" => Child::Junk,
+        _ if t.starts_with("e:") => {
+            let f: Vec<&str> = t[2..].split('/').collect();
+            if f.len() != 3 {
+                return None;
+            }
+            let leak = |s: &str| -> &'static str { Box::leak(s.to_string().into_boxed_str()) };
+            Child::Err { ty: leak(f[0]), tag: leak(f[1]), sev: leak(f[2]), extra: 0 }
+        }
+        _ if t.starts_with("R:") => {
+            let inner = &t[2..];
+            if inner == "_" {
+                Child::Results(vec![])
+            } else {
+                Child::Results(inner.split('+').map(parse_token).collect::<Option<Vec<_>>>()?)
+            }
+        }
+        _ if t.starts_with('c') => Child::Count(t[1..].parse().ok()?),
+        _ => return None,
+    })
+}
+
+/// valid-looking documents (so that error handling is not all the run sees)
+fn gen_valid(kind: &str, rng: &mut Rng) -> Vec<Child> {
+    let a = alphabet(rng);
+    let (errE, errW, cmt) = (a[1].clone(), a[2].clone(), a[4].clone());
+    let mut d = vec![];
+    let sprinkle = |d: &mut Vec<Child>, rng: &mut Rng| {
+        if rng.chance(1, 3) {
+            d.push(cmt.clone());
+        }
+    };
+    match kind {
+        "load" => {
+            let mut inner = vec![];
+            if rng.chance(1, 2) {
+                for _ in 0..rng.below(3) {
+                    inner.push(errW.clone());
+                    sprinkle(&mut inner, rng);
+                }
+                inner.push(Child::Ok);
+            } else {
+                let n = 1 + rng.below(3);
+                for _ in 0..n {
+                    inner.push(if rng.chance(2, 3) { errE.clone() } else { errW.clone() });
+                    sprinkle(&mut inner, rng);
+                }
+                inner.push(Child::Count(n));
+            }
+            sprinkle(&mut d, rng);
+            d.push(Child::Results(inner));
+            sprinkle(&mut d, rng);
+        }
+        _ => {
+            sprinkle(&mut d, rng);
+            if rng.chance(1, 2) {
+                match kind {
+                    "empty" => d.push(Child::Ok),
+                    "data" => d.push(Child::Data("<configuration><a>1</a></configuration>")),
+                    _ => {}
+                }
+            } else {
+                for _ in 0..(1 + rng.below(3)) {
+                    d.push(if rng.chance(2, 3) { errE.clone() } else { errW.clone() });
+                    sprinkle(&mut d, rng);
+                }
+            }
+            sprinkle(&mut d, rng);
+        }
+    }
+    d
+}
+
 pub fn main(opts: &Opts) {
     let mut rng = Rng::new(opts.seed);
     let mut sink = Sink::new();
     let cfg = if opts.extra.iter().any(|e| e == "pinned") { "pinned" } else { "fixed" };
     let mut jobs: Vec<(String, Vec<Child>)> = vec![];
-    for kind in KINDS {
-        let mut r = Rng::new(rng.next());
-        for d in gen_docs(kind, opts, &mut r) {
-            jobs.push((kind.to_string(), d));
+    if let Some(p) = &opts.replay {
+        for l in std::fs::read_to_string(p).unwrap().lines() {
+            if let Some(d) = l.strip_prefix("case\t") {
+                let d = d.split('\t').next().unwrap();
+                let mut it = d.splitn(2, ';');
+                let (Some(kind), Some(toks)) = (it.next(), it.next()) else { continue };
+                let doc = if toks == "." { Some(vec![]) } else { toks.split(';').map(parse_token).collect::<Option<Vec<_>>>() };
+                if let Some(doc) = doc {
+                    jobs.push((kind.to_string(), doc));
+                }
+            }
+        }
+    } else {
+        for kind in KINDS {
+            let mut r = Rng::new(rng.next());
+            for d in gen_docs(kind, opts, &mut r) {
+                jobs.push((kind.to_string(), d));
+            }
+            for _ in 0..(if opts.thorough() { 4000 } else { 600 }) {
+                jobs.push((kind.to_string(), gen_valid(kind, &mut r)));
+            }
         }
     }
     let results = run_pool(jobs.clone(), 16, |(kind, doc)| {
